@@ -86,13 +86,14 @@ def run(seed):
             assert r.arrival_date<=r.service_start_date<=r.service_end_date<=r.exit_date, ('C02 rec', r)
     return len(Q.get_all_records())
 
-fails=collections.Counter(); ex={}
-tot=0
-for seed in range(int(sys.argv[1])):
-    try: tot+=run(seed)
-    except AssertionError as e:
-        k=e.args[0][0] if e.args and isinstance(e.args[0],tuple) else str(e); fails[k]+=1; ex.setdefault(k,(seed,e.args))
-    except Exception as e:
-        k=type(e).__name__+':'+str(e)[:60]; fails[k]+=1; ex.setdefault(k,(seed,traceback.format_exc().splitlines()[-3:]))
-print("records", tot, "fails", dict(fails))
-for k,v in ex.items(): print(k, v)
+if __name__=='__main__':
+    fails=collections.Counter(); ex={}
+    tot=0
+    for seed in range(int(sys.argv[1])):
+        try: tot+=run(seed)
+        except AssertionError as e:
+            k=e.args[0][0] if e.args and isinstance(e.args[0],tuple) else str(e); fails[k]+=1; ex.setdefault(k,(seed,e.args))
+        except Exception as e:
+            k=type(e).__name__+':'+str(e)[:60]; fails[k]+=1; ex.setdefault(k,(seed,traceback.format_exc().splitlines()[-3:]))
+    print("records", tot, "fails", dict(fails))
+    for k,v in ex.items(): print(k, v)
